@@ -76,7 +76,9 @@ GroupsOfBinds(n) == UNION {SeqToSet(D[i].groups) : i \in BoundNow(n)}
 GroupsInUse(n) == GroupsOfOccupants(n) \cup GroupsOfBinds(n)
 ResvGroups(n) == {resv[i].g : i \in {x \in 1..Len(resv) : resv[x].n = n}}
 
-CpuUsed(n) == Sum(Occupants(n), LAMBDA p : P(p).cpu) + Sum(BoundNow(n), LAMBDA i : P(D[i].p).cpu)
+\* effective cpu request: max(sum of containers, largest init container) + pod overhead
+EffCpu(p) == Max2(P(p).cpu, P(p).initCpu) + P(p).ovhCpu
+CpuUsed(n) == Sum(Occupants(n), EffCpu) + Sum(BoundNow(n), LAMBDA i : EffCpu(D[i].p))
 MemUsed(n) == Sum(Occupants(n), LAMBDA p : P(p).mem) + Sum(BoundNow(n), LAMBDA i : P(D[i].p).mem)
 \* pod slots: workload pods + one reservation pod per GPU group in use or still present
 SlotsUsed(n) == Cardinality(Occupants(n)) + Cardinality(BoundNow(n)) + Cardinality(GroupsInUse(n) \cup ResvGroups(n))
@@ -190,7 +192,7 @@ LastRel(p, i) == LET xs == {x \in 1..i : D[x].p = p /\ Relevant(x)} IN IF xs = {
 ChargedAfter(i) ==
   {p \in Pods : LET x == LastRel(p, i) IN IF x = 0 THEN ActiveAtStart(p) ELSE ~EvictOK(x)}
 QGpu(q, i, np) == Sum({p \in ChargedAfter(i) : InSubtree(p, q) /\ (np => J(JobOf(p)).preempt = 0)}, GpuMilli)
-QCpu(q, i, np) == Sum({p \in ChargedAfter(i) : InSubtree(p, q) /\ (np => J(JobOf(p)).preempt = 0)}, LAMBDA p : P(p).cpu)
+QCpu(q, i, np) == Sum({p \in ChargedAfter(i) : InSubtree(p, q) /\ (np => J(JobOf(p)).preempt = 0)}, EffCpu)
 QMem(q, i, np) == Sum({p \in ChargedAfter(i) : InSubtree(p, q) /\ (np => J(JobOf(p)).preempt = 0)}, LAMBDA p : P(p).mem)
 Raises(i) == (BindOK(i) \/ Piped(i)) /\ D[i].p \notin ChargedAfter(i - 1)
 \* only the newest decision needs checking in each state (earlier ones were checked in earlier states)
@@ -199,13 +201,13 @@ C08_Limit ==
   (Last > 0 /\ Raises(Last)) =>
     \A q \in Ancestors(J(JobOf(D[Last].p)).queue) :
       /\ (Q(q).gl # -1 /\ GpuMilli(D[Last].p) > 0) => QGpu(q, Last, FALSE) <= Q(q).gl
-      /\ (Q(q).cl # -1 /\ P(D[Last].p).cpu > 0)   => QCpu(q, Last, FALSE) <= Q(q).cl
+      /\ (Q(q).cl # -1 /\ EffCpu(D[Last].p) > 0)   => QCpu(q, Last, FALSE) <= Q(q).cl
       /\ (Q(q).ml # -1 /\ P(D[Last].p).mem > 0)   => QMem(q, Last, FALSE) <= Q(q).ml
 C08_NonPreemptibleQuota ==
   (Last > 0 /\ Raises(Last) /\ J(JobOf(D[Last].p)).preempt = 0) =>
     \A q \in Ancestors(J(JobOf(D[Last].p)).queue) :
       /\ (Q(q).gq # -1 /\ GpuMilli(D[Last].p) > 0) => QGpu(q, Last, TRUE) <= Q(q).gq
-      /\ (Q(q).cq # -1 /\ P(D[Last].p).cpu > 0)   => QCpu(q, Last, TRUE) <= Q(q).cq
+      /\ (Q(q).cq # -1 /\ EffCpu(D[Last].p) > 0)   => QCpu(q, Last, TRUE) <= Q(q).cq
       /\ (Q(q).mq # -1 /\ P(D[Last].p).mem > 0)   => QMem(q, Last, TRUE) <= Q(q).mq
 
 (***************************************************************************)
@@ -213,7 +215,7 @@ C08_NonPreemptibleQuota ==
 (* judged when the allocate action is done.                                *)
 (***************************************************************************)
 AllPending(j) == \A p \in PodsOf(j) : S[p].st = "pending"
-Comparable(j, k) == j # k /\ J(j).shape > 0 /\ J(j).shape = J(k).shape /\ J(j).queue = J(k).queue
+Comparable(j, k) == j # k /\ J(j).shape > 0 /\ J(j).shape = J(k).shape /\ J(j).queue = J(k).queue /\ J(j).preempt = J(k).preempt
                     /\ AllPending(j) /\ AllPending(k)
 PlacedByAllocate(j) ==
   Cardinality({p \in PodsOf(j) : \E i \in Dec : (BindAny(i) \/ Piped(i)) /\ D[i].act = "allocate" /\ D[i].p = p}) >= J(j).min
@@ -333,7 +335,7 @@ C07_ReclaimerWithinFairShare ==
 (***************************************************************************)
 JustAfterAllocate == doneActs = {"allocate"} /\ action = ""
 PipedOn(n) == {i \in Dec : Piped(i) /\ D[i].n = n}
-IdleCpu(n) == N(n).cpu - CpuUsed(n) - Sum(PipedOn(n), LAMBDA i : P(D[i].p).cpu)
+IdleCpu(n) == N(n).cpu - CpuUsed(n) - Sum(PipedOn(n), LAMBDA i : EffCpu(D[i].p))
 IdleMem(n) == N(n).mem - MemUsed(n) - Sum(PipedOn(n), LAMBDA i : P(D[i].p).mem)
 IdleSlots(n) == N(n).pods - SlotsUsed(n) - Cardinality(PipedOn(n))
                 - Cardinality((UNION {SeqToSet(D[i].groups) : i \in PipedOn(n)}) \ (GroupsInUse(n) \cup ResvGroups(n)))
@@ -348,7 +350,7 @@ TasksOf(j) == FirstK(PodsOf(j), J(j).min)
 Untouched(j) == \A p \in PodsOf(j) : ~\E i \in Dec : D[i].p = p
 QueueRulesAllow(j) ==
   LET T == TasksOf(j)
-      g == Sum(T, GpuMilli)  c == Sum(T, LAMBDA p : P(p).cpu)  m == Sum(T, LAMBDA p : P(p).mem)
+      g == Sum(T, GpuMilli)  c == Sum(T, EffCpu)  m == Sum(T, LAMBDA p : P(p).mem)
       e == Len(D)
   IN \A q \in Ancestors(J(j).queue) :
        /\ (Q(q).gl = -1 \/ g = 0 \/ QGpu(q, e, FALSE) + g <= Q(q).gl)
@@ -362,7 +364,7 @@ FitsIdle(j) ==
   LET T == TasksOf(j)  UN == {n \in Nodes : UsableNode(n)} IN
   UN # {} /\ \E f \in [T -> UN] : \A n \in UN :
      LET here == {p \in T : f[p] = n} IN
-       /\ Sum(here, LAMBDA p : P(p).cpu) <= IdleCpu(n)
+       /\ Sum(here, EffCpu) <= IdleCpu(n)
        /\ Sum(here, LAMBDA p : P(p).mem) <= IdleMem(n)
        /\ Cardinality(here) <= IdleSlots(n)
        /\ Sum(here, Whole) <= IdleGpus(n)
